@@ -1560,6 +1560,19 @@ fn generate(tier: &str, seed: u64) -> (Vec<String>, BTreeMap<String, u64>) {
         w.a[0].noc = stray; // NOC of fabric (root 2, id 10) presented inside fabric (root 1, id 9)
         w.a[0].sk = 7;
         g.push("fab", &w, "noc_of_another_fabric_presented", &[h(1, NODE_B, "")]);
+        // NOC of the sibling fabric (same fabric id, same epoch key, other root) presented inside the addressed one
+        for on_a in [true, false] {
+            let mut w = base_world(0, &[], &[]);
+            add_second_fabric(&mut w, 9, false, false, true);
+            if on_a {
+                w.a[1].noc = w.a[0].noc;
+                w.a[1].sk = 5;
+            } else {
+                w.b[1].noc = w.b[0].noc;
+                w.b[1].sk = 6;
+            }
+            g.push("fab", &w, &format!("noc_of_sibling_fabric_presented_by_{}", if on_a { "A" } else { "B" }), &[h(2, NODE_B, "")]);
+        }
         // last-known clock (notBefore not enforced)
         let mut w = base_world(0, &[], &[]);
         w.reliable = false;
